@@ -87,6 +87,8 @@ GEN_SPECS = {
     "GN": ("nest", "GA", [("a", "int", None)]),
     "GP": ("pass", "GA", [("a", "int", None)]),
     "GR": ("rec", "GR", [("a", "int", None)]),
+    "GF": ("fresh", None, [("f", "float", None), ("t", "optstr", "NONE"), ("n", "int", 1)]),     # all-scalar with a float: readable names
+    "GT": ("sat", "GT", [("a", "int", None)]),          # saturating: for a > 2 it hands along ITS OWN result for a = 2
     "GS": ("fresh", None, [("a", "str", None), ("b", "str", "q")]),
     "GB": ("fresh", None, [("f", "float", None), ("o", "optint", "NONE"), ("e", "enum", Color.RED), ("t", "optstr", "NONE")]),
     "GC": ("fresh", None, [("n", "nested", "FACTORY"), ("p", "prefixed", "ONE"), ("s", "scalar", 1)]),
@@ -97,7 +99,7 @@ GEN_SPECS = {
     "GU": ("uncached", None, [("a", "int", None)]),                       # enable_cache=False, result depends on more than its parameters
 }
 MAYRAISE = {"GX"}
-KINDS = {g: s[0] for g, s in GEN_SPECS.items()}
+KINDS = {g: ("pass" if s[0] == "sat" else s[0]) for g, s in GEN_SPECS.items()}
 
 
 _FOREIGN = []
@@ -186,6 +188,8 @@ def make_env(h):
                 env["log"].append([gname, key_of(gname, params)])
                 if kind == "pass":
                     return subcall(callee, a=params.a, b="p")
+                if kind == "sat" and params.a > 2:
+                    return subcall(gname, a=2)
                 m = h.Module()
                 if kind == "uncached":
                     env["ucount"] = env.get("ucount", 0) + 1
@@ -276,14 +280,14 @@ STRS = ["x", "x b=y", "y b=z", "z", "None", "", "a=1", "x" * 119, "x" * 120, "x"
 
 
 def rich_step(rnd):
-    g = rnd.choice(["GS", "GS", "GB", "GC", "GD", "GA", "GA", "GP", "GN", "GX", "GU", "GM", "GM", "GG", "GG"])
+    g = rnd.choice(["GS", "GS", "GB", "GC", "GD", "GA", "GA", "GP", "GN", "GX", "GU", "GM", "GM", "GG", "GG", "GT", "GT", "GF", "GF"])
     form = rnd.choice(["kw", "inst"])
     if g == "GS":
         kw = {"a": rnd.choice(STRS)}
         if rnd.random() < 0.7:
             kw["b"] = rnd.choice(STRS)
     elif g == "GB":
-        kw = {"f": rnd.choice([1, 1.0, "1.0", 0.1, 1e-3, "0.001", 2.5, -0.0, 0.0])}
+        kw = {"f": rnd.choice([1, 1.0, "1.0", 0.1, 1e-3, "0.001", 2.5, -0.0, 0.0, 0.1 + 0.2, 0.3, 1 / 3, 0.3333333, 1.0000001, 1.0000002])}
         if rnd.random() < 0.5:
             kw["o"] = rnd.choice([None, 1, "1", 1.0, 2])
         if rnd.random() < 0.5:
@@ -302,6 +306,12 @@ def rich_step(rnd):
         kw = {"n": rnd.choice([1, 1.0, 2, 2.0, 2.5, 0, 0.0, -0.0, 10 ** 20, 1e20])}
         if rnd.random() < 0.4:
             kw["v"] = tuple(rnd.choice([[1, 2.5], [1.0, 2.5], [1], [1.0], [0.0], [-0.0], [0]]))
+    elif g == "GF":
+        kw = {"f": rnd.choice([0.1 + 0.2, 0.3, 1 / 3, 0.3333333, 1.0000001, 1.0000002, 1.0, 1e-11, 1e22, 0.5, -0.0, 0.0])}
+        if rnd.random() < 0.4:
+            kw["t"] = rnd.choice([None, "x"])
+    elif g == "GT":
+        kw = {"a": rnd.choice([1, 2, 3, 4, 5, 9])}
     elif g == "GG":
         kw = {"g": rnd.choice([0, 1, 2])}
         if rnd.random() < 0.3:
@@ -315,7 +325,7 @@ def rich_step(rnd):
         if rnd.random() < 0.5:
             kw["k"] = rnd.choice([0, 1])
     else:
-        kw = {"a": rnd.choice([1, 1.0, "1", 2, 0, True])}
+        kw = {"a": rnd.choice([1, 1.0, "1", 2, 0, True, -1, -2, -1, -2])}
         if g == "GA" and rnd.random() < 0.6:
             kw["b"] = rnd.choice(["x", "p", "n", "x b=y", "None"])
     return {"g": g, "form": form, "kw": kw}
